@@ -2,7 +2,7 @@
    Cell level (this file): the value bytes are delivered exactly, for every
    declared maximum length (prefix width) and every actual length including 0.
    The three-way NULL / empty / absent distinction at row-image level is
-   C13_three_way (Proofs/RowProofs.v) once the row model is in scope. *)
+   C13_three_way (Proofs/RowProofs.v) once the row model is in scope (now: Props/C09.v, C09_three_way). *)
 From GB Require Import Base.Prelude Model.Cell Spec.Values.
 From GB Require Import Proofs.CellCommon Proofs.CellSimple.
 Open Scope Z_scope.
